@@ -154,8 +154,7 @@ func c26Run(in c26In) (V, Verdict) {
 	if !ok {
 		return obs, Pass(fmt.Sprintf("malformed/delivered=%v", delivered), false)
 	}
-	class := fmt.Sprintf("cc%s/x%s/p%s/pay%s", c26CCBucket(p.CC), c26Bucket(len(p.ExtData), p.Ext), c26Bucket(len(p.PadBytes), p.Pad),
-		c26PayBucket(len(p.Payload)))
+	class := fmt.Sprintf("cc%s/x%v/p%v/pay%s", c26CCBucket(p.CC), p.Ext, p.Pad, c26PayBucket(len(p.Payload)))
 	if len(p.Payload) < 2 {
 		if delivered {
 			return obs, Fail("rtx-short-packet-delivered",
@@ -190,42 +189,24 @@ func c26Run(in c26In) (V, Verdict) {
 	return obs, Pass(class, true)
 }
 
-func c26Bucket(n int, present bool) string {
-	switch {
-	case !present:
-		return "-"
-	case n == 0:
-		return "0"
-	case n <= 4:
-		return "1w"
-	case n <= 64:
-		return "s"
-	}
-	return "L"
-}
-
 func c26CCBucket(cc int) string {
 	switch {
 	case cc == 0:
 		return "0"
 	case cc == 15:
 		return "15"
-	case cc <= 7:
-		return "1-7"
 	}
-	return "8-14"
+	return "1-14"
 }
 
 func c26PayBucket(n int) string {
 	switch {
 	case n < 2:
-		return fmt.Sprintf("%d", n)
+		return "0-1"
 	case n == 2:
 		return "2"
-	case n <= 16:
-		return "s"
 	case n <= 400:
-		return "m"
+		return "s"
 	}
 	return "L"
 }
@@ -459,13 +440,13 @@ func init() {
 	Register(Spec[c26In]{
 		ID: "C26", Suite: "packets", CoqImports: []string{"Common.BytesUtil", "Check.C26"},
 		CoqType: "Z * Z * list byte * Z", CoqRun: "Check.C26.run",
-		Quick: 700, Thorough: 40000, Parallel: 8,
+		Quick: 700, Thorough: 6000, Parallel: 8,
 		Gen: c26GenValid, Run: c26Run, Coq: c26Coq, Shrink: c26Shrink,
 	})
 	Register(Spec[c26In]{
 		ID: "C26", Suite: "malformed", CoqImports: []string{"Common.BytesUtil", "Check.C26"},
 		CoqType: "Z * Z * list byte * Z", CoqRun: "Check.C26.run",
-		Quick: 400, Thorough: 20000, Parallel: 8,
+		Quick: 400, Thorough: 3000, Parallel: 8,
 		Gen: c26GenMalformed, Run: c26Run, Coq: c26Coq, Shrink: c26Shrink,
 	})
 }
